@@ -84,6 +84,7 @@ class Rec:
         self.resolve_fault = None
         self.fin_fault = None
         self.n_fin = 0
+        self.cb = None
         self.n_resolve = 0
         self.n_render = 0
         self.totals = {}  # idx -> [finCalls, libFin, viaDel, renders, usedAfter]
@@ -199,6 +200,23 @@ class R(Renderable):
         r.n_render += 1
         if r.render_fault and r.render_fault[0] == k:
             raise r.render_fault[1]("injected")
+        if r.cb:
+            # re-entrancy: from inside the frame render, back into the iterator that is rendering
+            (it, spec), r.cb = r.cb, None
+            try:
+                if spec[0] == "close":
+                    it.close()
+                elif spec[0] == "next":
+                    next(it)
+                else:
+                    it.seek(int(spec[2]), SEEKS[spec[1]])
+                r.events.append("cb:ok")
+            except BaseException as e:  # noqa: BLE001
+                r.events.append("cb:" + type(e).__name__)
+                e = None
+            fin2 = bool(render_data.finalized)  # ... and the render goes on with this data
+            r.events.append(f"e{i}:{int(fin2)}")
+            t[4] += fin2
         d = render_data[Renderable]
         w, h = d.size
         return Frame(d.frame_offset if self.frame_count != FrameCount.INDEFINITE else 0, 1, d.size,
@@ -232,6 +250,9 @@ class Out(io.StringIO):
         return len(s)
 
 
+SEEKS = {"start": Seek.START, "current": Seek.CURRENT, "end": Seek.END}
+
+
 def cache_arg(c):
     return False if c == "off" else True if c == "on" else int(c[5:])
 
@@ -260,7 +281,7 @@ class History:
 
     def valid(self, op):
         n = op[0]
-        if n in ("next", "close", "seek", "bump", "dropIter"):
+        if n in ("next", "close", "seek", "bump", "dropIter", "set", "nextCb"):
             i = int(op[1])
             return i < len(self.rec.iters) and i in self.it
         if n == "fromData":
@@ -323,7 +344,23 @@ class History:
         elif n == "close":
             self.it[int(op[1])].close()
         elif n == "seek":
-            self.it[int(op[1])].seek(int(op[2]), Seek.START)
+            self.it[int(op[1])].seek(int(op[3]), SEEKS[op[2]])
+        elif n == "set":
+            it, kind, fresh = self.it[int(op[1])], op[2], op[3] == "1"
+            if fresh:
+                self.bumps += 1
+            if kind == "size":
+                it.set_render_size(Size(2 + self.bumps, 2) if fresh else it._renderable_data.size)
+            elif kind == "duration":
+                it.set_frame_duration(1 + self.bumps if fresh else it._renderable_data.duration)
+            elif kind == "padding":
+                it.set_padding(ExactPadding(1 + self.bumps % 3) if fresh else it._padding)
+            else:
+                it.set_render_args(RenderArgs(R) if fresh else it._render_args)
+        elif n == "nextCb":
+            it = self.it[int(op[1])]
+            self.rec.cb = (it, op[2:])  # the next `_render_` calls back into the iterator
+            next(it)
         elif n == "bump":
             self.bumps += 1
             self.it[int(op[1])].set_render_size(Size(2 + self.bumps, 2))
@@ -349,6 +386,7 @@ class History:
         rec.n_resolve = 0
         rec.fin_fault = None
         rec.n_fin = 0
+        rec.cb = None
         rec.by = "l"
         wfault = cwfault = None
         self.r.size = Size(2, 2)
@@ -386,6 +424,7 @@ class History:
         if op[0] == "initRender" and op[2] == "0" and rec.n_objs > n_before:
             self.owner[n_before] = "c"  # finalize=False: the data stays the subclass operation's
         sys.last_exc = sys.last_value = sys.last_traceback = None
+        rec.cb = None
         self.r.live.clear()  # from here on `RenderData.__del__` may run
         gc.collect()
         evs = [e for e in rec.events if not e.endswith(":d")] + sorted(
@@ -510,6 +549,10 @@ RENDER_EXC = ["Boom", "StopIteration", "KeyboardInterrupt", "AttributeError", "V
 WRITE_EXC = ["Boom", "KeyboardInterrupt"]
 ALL_RENDER_EXC = GENERIC_EXC + ["StopIteration", "AttributeError"]
 ARGS_KINDS = ["none", "own", "ancestor"]
+WHENCES = ["start", "current", "end"]
+CTL_KINDS = ["size", "duration", "padding", "args"]
+CB_KINDS = [("close",), ("next",), ("seek", "start", "0"), ("seek", "current", "-1"), ("seek", "end", "0"),
+            ("seek", "current", "0")]
 CACHES = ["off", "on", "upto 1", "upto 2", "upto 3", "upto 100", "upto 0"]
 
 
@@ -565,7 +608,7 @@ def exhaustive(max_fc):
                 if fc != 1:
                     for pos in (0, 1):
                         ops = [(("iterNew", "2", "off"), None)] + [(("next", "0"), None)] * pos
-                        ops += [(("next", "0"), f), (("seek", "0", "0"), None), (("next", "0"), None),
+                        ops += [(("next", "0"), f), (("seek", "0", "start", "0"), None), (("next", "0"), None),
                                 (("bump", "0"), None), (("dropIter", "0"), None)]
                         yield mk_case(fc, ops, "x-exc-next")
         for e in GENERIC_EXC:
@@ -584,6 +627,51 @@ def exhaustive(max_fc):
                         for f in fl:
                             yield mk_case(fc, [(("handover", fin, args, str(n), order), f), (("render",), None)],
                                           "x-handover")
+        if fc != 1:
+            n1 = max(fc, 1)
+            # control operations on a finalized iterator, however it was finalized, every argument shape
+            ctl_ops = [("seek", "0", wh, off) for wh in WHENCES for off in ("0", "1", "-1")] \
+                + [("set", "0", k, fr) for k in CTL_KINDS for fr in ("0", "1")] + [("bump", "0")] \
+                + [("nextCb", "0") + cb for cb in CB_KINDS[:3]]
+            for how in ("exhausted", "closed", "closed-fresh", "failed", "interrupted"):
+                pre = [(("iterNew", "1", "on"), None)]
+                if how == "exhausted":
+                    pre += [(("next", "0"), None)] * n1 + [(("next", "0"), ("render", 0, "StopIteration") if fc == 0 else None)]
+                elif how == "closed":
+                    pre += [(("next", "0"), None), (("close", "0"), None)]
+                elif how == "closed-fresh":
+                    pre += [(("close", "0"), None)]
+                elif how == "failed":
+                    pre += [(("next", "0"), ("render", 0, "ValueError"))]
+                else:
+                    pre += [(("next", "0"), ("render", 0, "KeyboardInterrupt")), (("next", "0"), None)]
+                for c in ctl_ops:
+                    yield mk_case(fc, pre + [(c, None), (("next", "0"), None), (("dropIter", "0"), None)],
+                                  "x-closed-ops")
+            # seek with every whence and offset on an open iterator (cache on: which frames get re-rendered shows
+            # where the seek went), and re-entrant calls from inside a frame render
+            for pos in range(0, n1 + 1):
+                pre = [(("iterNew", "2", "on"), None)] + [(("next", "0"), None)] * pos
+                for wh in WHENCES:
+                    for off in range(-n1 - 1, n1 + 2):
+                        yield mk_case(fc, pre + [(("seek", "0", wh, str(off)), None), (("next", "0"), None),
+                                                 (("next", "0"), None), (("dropIter", "0"), None)], "x-seek")
+                for k in CTL_KINDS:
+                    for fr in ("0", "1"):
+                        yield mk_case(fc, pre + [(("set", "0", k, fr), None), (("next", "0"), None),
+                                                 (("next", "0"), None), (("dropIter", "0"), None)], "x-set")
+            for cache in ("off", "on"):
+                for pos in range(0, n1 + 1):
+                    for cb in CB_KINDS:
+                        for own in ("lib", "fin1", "fin0"):
+                            pre = [(("iterNew", "2", cache), None)] if own == "lib" else \
+                                [(("mkData", "1"), None), (("fromData", "0", "1" if own == "fin1" else "0", "2", cache, "own"), None)]
+                            ops = pre + [(("next", "0"), None)] * pos + [
+                                (("nextCb", "0") + cb, None), (("next", "0"), None), (("seek", "0", "current", "0"), None),
+                                (("close", "0"), None), (("dropIter", "0"), None)]
+                            if own != "lib":
+                                ops.append((("cdrop", "0"), None))
+                            yield mk_case(fc, ops, "x-reentrant")
         # a finalizer that raises: in every operation that finalizes, then a second finalize from someone else
         yield mk_case(fc, [(("mkData", "1"), None), (("cfin", "0"), hook), (("cfin", "0"), None), (("cdrop", "0"), None)],
                       "x-finhook")
@@ -644,7 +732,7 @@ def exhaustive(max_fc):
                                 ops.append((("cfin", "0"), None))
                             i2 = "0" if how in ("fresh", "cfin") else "1"
                             ops.append((("fromData", "0", fin2, "2", "off", args2), None))
-                            ops += [(("next", i2), None), (("next", i2), None), (("seek", i2, "0"), None),
+                            ops += [(("next", i2), None), (("next", i2), None), (("seek", i2, "start", "0"), None),
                                     (("dropIter", i2), None), (("cdrop", "0"), None)]
                             if i2 == "1":
                                 ops.append((("dropIter", "0"), None))
@@ -665,9 +753,9 @@ def exhaustive(max_fc):
                                 elif end == "drop":
                                     ops.append((("dropIter", "0"), None))
                                 elif end == "seek":
-                                    ops.append((("seek", "0", "0"), None))
+                                    ops.append((("seek", "0", "start", "0"), None))
                                     ops.append((("bump", "0"), None))
-                                ops += [(("next", "0"), None), (("seek", "0", "1"), None)]
+                                ops += [(("next", "0"), None), (("seek", "0", "start", "1"), None)]
                                 if end != "drop":
                                     ops.append((("dropIter", "0"), None))  # quiescence
                                 yield mk_case(fc, ops, f"x-iter-{end}")
@@ -684,11 +772,11 @@ def random_history(rng):
             menu = ["render", "str", "draw", "draw", "iterNew", "iterNew", "mkData", "initRender", "initRender",
                     "handover"]
             if its:
-                menu += ["next"] * 8 + ["close", "seek", "seek", "bump", "dropIter"]
+                menu += ["next"] * 8 + ["close", "seek", "seek", "bump", "dropIter", "set", "set", "nextCb", "nextCb"]
             if datas:
                 menu += ["fromData"] * 3 + ["cfin", "cdrop"]
             if rng.random() < 0.05:
-                menu = ["next", "close", "seek", "bump", "dropIter", "fromData", "cfin", "cdrop"]  # maybe invalid
+                menu = ["next", "close", "seek", "bump", "dropIter", "fromData", "cfin", "cdrop", "set", "nextCb"]
             kind = rng.choice(menu)
             fault = None
             ii = str(rng.choice(its) if its and rng.random() < 0.95 else rng.randrange(0, len(h.rec.iters) + 2))
@@ -727,7 +815,12 @@ def random_history(rng):
             elif kind == "fromData":
                 op = ("fromData", dd, str(rng.randrange(2)), str(loops), cache, rng.choice(ARGS_KINDS))
             elif kind == "seek":
-                op = ("seek", ii, str(rng.randrange(0, max(fc, 1) + 1)))
+                op = ("seek", ii, rng.choice(WHENCES), str(rng.randrange(-max(fc, 1) - 1, max(fc, 1) + 2)))
+            elif kind == "set":
+                op = ("set", ii, rng.choice(CTL_KINDS), str(rng.randrange(2)))
+            elif kind == "nextCb":
+                op = ("nextCb", ii) + rng.choice(CB_KINDS)
+                fault = None
             elif kind in ("cfin", "cdrop"):
                 op = (kind, dd)
                 if rng.random() < 0.15:
@@ -757,7 +850,7 @@ class C10(Property):
         "iterator's `_render_data` are gone (model: `dropRefs`)",
         "the caller does not finalize, or hand to a second iterator, data that an open iterator is using",
     ]
-    quick_cases = 24000
+    quick_cases = 30000
     thorough_cases = 150000
 
     def gen_constants(self):
@@ -866,6 +959,8 @@ def check_log(fc, ops, outs):
         # only the once-only and promptness clauses are judged for such an operation
         hook_fault = bool(fault) and fault[0] == "finhook"
         for e in filter(None, evs.split(",")):
+            if e.startswith("cb:"):
+                continue
             kind, rest = e[0], e[1:]
             if kind == "c":
                 owner[int(rest)] = "c" if op[0] == "mkData" or (op[0] == "initRender" and op[2] == "0") \
@@ -895,16 +990,24 @@ def check_log(fc, ops, outs):
             for i, c in enumerate(closed_prev):
                 if c == "1" and mask[i] != "1":
                     return Failure(f"reopened/{where}", f"op #{n}: iterator {i} was closed and is open again")
-            if op[0] in ("next", "seek", "bump") and int(op[1]) < len(closed_prev):
+            for e in filter(None, evs.split(",")):
+                if e[0] == "e" and e.endswith(":1"):
+                    return Failure(f"use-after-finalize/{where}/cb={'-'.join(op[2:])}",
+                                   f"op #{n}: the data was finalized while `_render_` was still rendering with it "
+                                   f"(call back into the iterator from inside the render); events: {evs}")
+                if e.startswith("cb:") and op[0] == "nextCb" and op[2] in ("close", "next") and e != "cb:ValueError":
+                    return Failure(f"reentrant-call/{where}/cb={op[2]}",
+                                   f"op #{n}: {op[2]}() from inside `_render_` ended `{e[3:]}`, not ValueError")
+            if op[0] in ("next", "seek", "bump", "set", "nextCb") and int(op[1]) < len(closed_prev):
                 i = int(op[1])
                 if closed_prev[i] == "1":
-                    want = "err StopIteration" if op[0] == "next" else "err FinalizedIteratorError"
+                    want = "err StopIteration" if op[0] in ("next", "nextCb") else "err FinalizedIteratorError"
                     if outcome != want:
                         return Failure(f"closed-iterator-usable/{where}",
                                        f"op #{n}: {op[0]} on closed iterator {i} gave `{outcome}`, not `{want}`")
                     if evs:
                         return Failure(f"closed-iterator-acts/{where}", f"op #{n}: events on a closed iterator: {evs}")
-                elif op[0] == "next" and outcome.startswith("err ") and outcome[4:] in EXCEPTION_NAMES \
+                elif op[0] in ("next", "nextCb") and outcome.startswith("err ") and outcome[4:] in EXCEPTION_NAMES \
                         and mask[i] != "1" and not hook_fault:
                     return Failure(f"open-after-error/{where}",
                                    f"op #{n}: next() raised {outcome[4:]} and iterator {i} is still open")
@@ -918,7 +1021,7 @@ def check_log(fc, ops, outs):
             # finalized its data itself when it returns or raises — not left it to `RenderData.__del__`
             if op[0] in ("render", "str") or (op[0] == "initRender" and op[2] == "1"):
                 for e in filter(None, evs.split(",")):
-                    if e[0] == "c" and f"f{e[1:]}:l" not in evs.split(","):
+                    if e[0] == "c" and e[1] != "b" and f"f{e[1:]}:l" not in evs.split(","):
                         return Failure(f"not-prompt/{where}/flags={''.join(op[1:])}",
                                        f"op #{n}: {op[0]} (`_init_render_(finalize=True)`) returned/raised ({outcome}) without "
                                        f"having finalized its render data (object {e[1:]}); events: {evs}")
@@ -927,14 +1030,14 @@ def check_log(fc, ops, outs):
             # precedes draw's `try`, and a failure of the clean-up's own write("\n"), which precedes finalize()
             if op[0] == "draw" and not (fault and fault[0] in ("validate", "resolve", "cwrite")):
                 for e in filter(None, evs.split(",")):
-                    if e[0] == "c" and f"f{e[1:]}:l" not in evs.split(","):
+                    if e[0] == "c" and e[1] != "b" and f"f{e[1:]}:l" not in evs.split(","):
                         return Failure(f"not-prompt/{where}/animate={op[1]}",
                                        f"op #{n}: draw() returned/raised ({outcome}) without having finalized its "
                                        f"render data (object {e[1:]}); events: {evs}")
             # data of finished operations: finalized exactly once by now
             if op[0] in ("render", "str", "draw", "initRender", "handover"):
                 for e in filter(None, evs.split(",")):
-                    if e[0] == "c" and fin.get(int(e[1:]), 0) != 1:
+                    if e[0] == "c" and e[1] != "b" and fin.get(int(e[1:]), 0) != 1:
                         return Failure(f"not-finalized/{where}",
                                        f"op #{n}: object {e[1:]} created by {op[0]} has {fin.get(int(e[1:]), 0)} "
                                        "finalize calls once the operation is over and garbage collected")
